@@ -34,7 +34,7 @@ OFFSETS_MIN = tuple(range(-14 * 60, 14 * 60 + 1, 15))                           
 OFFSET_FORMS = tuple(cal.format_offset(m) for m in OFFSETS_MIN if m < 0) + ("-00:00", "+00:00") + tuple(
     cal.format_offset(m) for m in OFFSETS_MIN if m > 0)                                # 114 written forms
 ACCESSORS = cal.ACCESSORS
-CTORS = ("F", "Z", "O")      # binding built from integer fields / RFC 3339 'Z' text / RFC 3339 text with an offset
+CTORS = ("F", "Z", "O", "N")  # binding built from integer fields / RFC 3339 'Z' text / text with +05:30 (or -05:30) / text with -01:00 (or +01:00)
 S = cal.US_PER_S
 D_MAGS = (1, 1000, S, 59999999, 3600 * S, 86400 * S, 365 * 86400 * S, 146097 * 86400 * S, cal.MAX_DUR_US)
 D11 = (0,) + tuple(x for m in D_MAGS for x in (m, -m))                                 # 19 durations
@@ -132,6 +132,10 @@ def instants(tier):
     for d in range(1, 8):                                    # Sunday 2023-01-01 .. Saturday 2023-01-07
         ts.add(cal.us_from_civil(2023, 1, d, 6, 7, 8, 9000))
     ts.add(cal.us_from_civil(2009, 2, 13, 23, 31, 30))      # the instant every repository test uses
+    # within hours of the ends of the range: written with an offset, the wall-clock fields of t +- d leave years
+    # 0001..9999 although the instant does not
+    ts.add(cal.us_from_civil(1, 1, 1, 1, 30, 0))
+    ts.add(cal.us_from_civil(9999, 12, 31, 22, 30, 0))
     for z in ZONES:
         tr = transitions(z)
         for i, e in enumerate(tr):
@@ -166,8 +170,11 @@ def zone_arguments(t_us):
     return zs
 
 
-def offset_for_ctor(t_us):
-    """Offset (minutes) used by the 'O' constructor: +05:30 unless the local date leaves year 9999."""
+def offset_for_ctor(t_us, ctor="O"):
+    """Offset (minutes) used by the 'O' constructor: +05:30 unless the local date leaves year 9999; by the 'N'
+    constructor: -01:00 unless the local date leaves year 0001 (then +01:00)."""
+    if ctor == "N":
+        return -60 if cal.rfc3339(t_us, -60) is not None else 60
     return 330 if cal.rfc3339(t_us, 330) is not None else -330
 
 
@@ -211,7 +218,7 @@ def make_ts(t_us, ctor):
         elif ctor == "Z":
             v = ct.TimestampType(cal.rfc3339(t_us))
         else:
-            v = ct.TimestampType(cal.rfc3339(t_us, offset_for_ctor(t_us)))
+            v = ct.TimestampType(cal.rfc3339(t_us, offset_for_ctor(t_us, ctor)))
         ok = isinstance(v, ct.TimestampType) and outcome.plain(v) == t_us
     except Exception:  # noqa
         return None
@@ -516,7 +523,7 @@ def show(exp):
 def ctor_text(t_us, ctor):
     if ctor == "F":
         return "TimestampType(%d, %d, %d, %d, %d, %d, %d)" % cal.civil_from_us(t_us)[:7]
-    return 'TimestampType("%s")' % cal.rfc3339(t_us, None if ctor == "Z" else offset_for_ctor(t_us))
+    return 'TimestampType("%s")' % cal.rfc3339(t_us, None if ctor == "Z" else offset_for_ctor(t_us, ctor))
 
 
 def describe(w):
